@@ -141,6 +141,23 @@ class C10(Prop):
                 # (error_code, warning - C16); there are no results to compare.  Counted, not decided.
                 bump(c, 'c10.skipped_continued_run_nonconverged')
                 return viol
+            # a tank standing on a level limit whose links carry (next to) no flow: the tank's own close-at-the-limit / reopen controls decide
+            # on the sign of a flow that is zero up to rounding and may flip-flop until the trial limit - in either run, by luck of the last
+            # digits (seen with the thorough tier: a control closes the zone's feed at the last step, the tank is full, nobody draws).
+            # The simulator says so (C16); counted, not decided.
+            at_limit = False
+            try:
+                lv = ref.tables.node['pressure']
+                for n_ in scn['nodes']:
+                    if n_['type'] == 'T':
+                        x_ = lv[n_['id']].values
+                        if ((x_ >= n_['max'] - 1e-3) | (x_ <= n_['min'] + 1e-3)).any():
+                            at_limit = True
+            except Exception:  # noqa
+                at_limit = False
+            if at_limit and any('Exceeded maximum number of trials' in w_ for w_ in out.warnings):
+                bump(c, 'c10.skipped_trial_limit_with_a_tank_on_its_limit')
+                return viol
             viol.append(V('c10.continued_run_fails', tag, 'a part of the paused run did not converge while the uninterrupted run does'))
             return viol
         # each part's rows
